@@ -1,5 +1,5 @@
 /-
-  Y0.Lemmas.CtfTrCondLink2 — the members of the ancestral sets of a conditional query in the class `ctfTRLinkClass`,
+  Y0.Lemmas.CtfTrCondLink2 — the members of the ancestral sets of a conditional query in the class `ctfTRSoundClass`,
   each looked at in the full world of its root, satisfy the hypotheses `CondSem` of the semantic core
   (Y0/Lemmas/CtfTrCondSem.lean): `condSem_of_link`.
 -/
